@@ -162,6 +162,14 @@ def run(ctx):
         t = Bed6([x[0] for x in rows], np.array([x[1] for x in rows]), np.array([x[2] for x in rows]), ["n%d" % i for i in range(len(rows))], np.zeros(len(rows), dtype=int), [r.choice("+-") for _ in rows])
         return g, t
 
+    def genome_and_iv_out(r):
+        """intervals that stick out of their chromosome (negative start / stop beyond the end): clipping has something to do"""
+        sizes = {"chr1": 50, "chr2": 30}
+        g = bnp.Genome.from_dict(sizes)
+        rows = sorted([(c, r.randint(-5, 20), r.randint(21, sizes[c] + 8)) for c in [r.choice(["chr1", "chr2"]) for _ in range(r.randint(2, 5))]])
+        t = Bed6([x[0] for x in rows], np.array([x[1] for x in rows]), np.array([x[2] for x in rows]), ["n%d" % i for i in range(len(rows))], np.zeros(len(rows), dtype=int), [r.choice("+-") for _ in rows])
+        return g, t
+
     pwm = PWM(np.log(np.array([[0.5, 0.25], [0.25, 0.25], [0.125, 0.25], [0.125, 0.25]])), "ACGT")
 
     # registry: name -> (argument factory, function)
@@ -175,6 +183,8 @@ def run(ctx):
         "strops.str_to_float": (lambda r: (enc(float_texts(r)),), lambda a: strops.str_to_float(a)),
         "strops.str_to_int_with_missing": (lambda r: (enc(int_texts(r) + [".", ""]),), lambda a: strops.str_to_int_with_missing(a)),
         "strops.str_to_float_with_missing": (lambda r: (enc(float_texts(r) + [".", ""]),), lambda a: strops.str_to_float_with_missing(a)),
+        "strops.str_to_int_with_missing(no empty row)": (lambda r: (enc(["."] + int_texts(r) + ["."]),), lambda a: strops.str_to_int_with_missing(a)),
+        "strops.str_to_float_with_missing(no empty row)": (lambda r: (enc(float_texts(r) + [".", "3"]),), lambda a: strops.str_to_float_with_missing(a)),
         "strops.ints_to_strings": (lambda r: (np.array([r.randint(-10 ** 9, 10 ** 9) for _ in range(r.randint(1, 6))]),), lambda a: strops.ints_to_strings(a)),
         "strops.float_to_strings": (lambda r: (np.array([r.uniform(-5, 5) for _ in range(3)]),), lambda a: strops.float_to_strings(a)),
         "strops.int_lists_to_strings": (lambda r: (RaggedArray([np.array([r.randint(0, 99) for _ in range(r.randint(0, 4))], dtype=int) for _ in range(3)]),), lambda a: strops.int_lists_to_strings(a)),
@@ -209,6 +219,9 @@ def run(ctx):
         "GenomicIntervals.merged(0)": (genome_and_iv, lambda g, t: g.get_intervals(t).merged()),
         "GenomicIntervals.merged(2)": (genome_and_iv, lambda g, t: g.get_intervals(t).merged(2)),
         "GenomicIntervals.clip": (genome_and_iv, lambda g, t: g.get_intervals(t).clip()),
+        "GenomicIntervals.clip(out of range)": (genome_and_iv_out, lambda g, t: g.get_intervals(t).clip()),
+        "GenomicIntervals.clip(slice of intervals)": (genome_and_iv_out, lambda g, t: g.get_intervals(t)[1:].clip()),
+        "GenomicIntervals.merged(d)": (genome_and_iv, lambda g, t: g.get_intervals(t).merged(3)),
         "GenomicIntervals.extended_to_size": (genome_and_iv, lambda g, t: g.get_intervals(t, stranded=True).extended_to_size(9)),
         "GenomicIntervals.sorted": (genome_and_iv, lambda g, t: g.get_intervals(t).sorted()),
         "GenomicIntervals.get_location": (genome_and_iv, lambda g, t: g.get_intervals(t, stranded=True).get_location("stop").position),
